@@ -2377,7 +2377,10 @@ func (m *clientMock) ExpectScanType(cursor uint64, pattern string, count int64, 
 	if count > 0 {
 		cmd = cmd.Args("COUNT", strconv.FormatInt(count, 10))
 	}
-	completed := cmd.Args("TYPE", keyType).ReadOnly()
+	if keyType != "" {
+		cmd = cmd.Args("TYPE", keyType)
+	}
+	completed := cmd.ReadOnly()
 	e := m.push(match(completed.Commands()...), defaultArrayResult())
 	return &ExpectedScan{exp: e}
 }
